@@ -16,6 +16,7 @@ type Opts struct {
 	Massive         bool          `json:"massive,omitempty"`
 	NilCtx          bool          `json:"nilCtx,omitempty"` // WithMassive(nil)
 	NoIter          bool          `json:"noIter,omitempty"`
+	NilOpts         bool          `json:"nilOpts,omitempty"`         // nil Options are interleaved with the real ones (they must be skipped, not end the list)
 	TargetOpt       string        `json:"targetOpt,omitempty"`       // how the target dir is spelled: "" abs, "rel", "slash", "default" (cwd, no option), "raw"
 	TargetRaw       string        `json:"targetRaw,omitempty"`       // with TargetOpt "raw": cwd is the jail's target and this string is passed to WithTargetDir
 	PassEmptyTarget bool          `json:"passEmptyTarget,omitempty"` // pass WithTargetDir("") like the command line does when the flag is absent
